@@ -85,6 +85,8 @@ def run(idx: ProgramIndex, rep: Report, tier: str):
     wrapped_output_blocks(idx, rep)
     component_kl_reduced(idx, rep)
     prior_from_prior_mode(idx, rep)
+    one_hot_axis_to_task_dim(idx, rep)
+    reshape_of_expanded_rows(idx, rep)
     # C14-2
     vs = idx.find_class("_VariationalStrategy")
     m = 0
@@ -804,3 +806,90 @@ def prior_from_prior_mode(idx: ProgramIndex, rep: Report):
                         "derives from %s" % (", ".join(sorted(roots))[:80] or "constants") if ok else
                         "the distribution stored as the prior p(u) is cut out of `self.model(...)`, the posterior of the wrapped variational model: its covariance contains S. With q(f) set to the exact posterior N x ELBO is -19.271 against an exact log marginal likelihood of -20.480 (excess 0.5 m^T S (I+S)^-1 m): the reported ELBO is not a lower bound", {})
     rep.floor("C14-15", "prior distributions of the strategies", n, 6)
+
+
+# ---- C14-16 --------------------------------------------------------------------------------------------------------
+def one_hot_axis_to_task_dim(idx: ProgramIndex, rep: Report):
+    """one_hot(task_indices) appends the task axis as the LAST axis; before it can weight the per-task distribution it has to sit at the
+    position of the task dimension.  The permutation that does that is the inverse of the familiar one that moves an axis to the end; the
+    two coincide only when the task dimension is the last batch dimension.  The permutation expression is evaluated for every
+    (number of batch dimensions, task position) with up to four batch dimensions - integer arithmetic on the index expression only."""
+    rep.rule("C14-16", "the one-hot task mask of the independent multitask strategy is permuted so that its last (task) axis lands at the task dimension, for every number of batch dimensions and every task position")
+    C = idx.find_class("IndependentMultitaskVariationalStrategy")
+    fi = idx.method(C, "__call__", own=True)
+    perms = [c for c in calls_in(fi.node) if isinstance(c.func, ast.Attribute) and c.func.attr == "permute" and "mask" in src(c.func.value)]
+    if len(perms) != 1:
+        raise AnalysisError("C14-16: expected exactly one permutation of the task mask in IndependentMultitaskVariationalStrategy.__call__ (anchor)")
+    call = perms[0]
+    names = sorted({x.id for a in call.args for x in ast.walk(a) if isinstance(x, ast.Name)} - {"range"})
+
+    def ev(e, env):
+        if isinstance(e, ast.Constant):
+            return e.value
+        if isinstance(e, ast.Name):
+            return env[e.id]
+        if isinstance(e, ast.BinOp) and isinstance(e.op, (ast.Add, ast.Sub)):
+            a, b = ev(e.left, env), ev(e.right, env)
+            return a + b if isinstance(e.op, ast.Add) else a - b
+        if isinstance(e, ast.UnaryOp) and isinstance(e.op, ast.USub):
+            return -ev(e.operand, env)
+        if isinstance(e, ast.Call) and isinstance(e.func, ast.Name) and e.func.id == "range":
+            return list(range(*[ev(a, env) for a in e.args]))
+        raise AnalysisError("C14-16: unknown form in the permutation: %s" % src(e))
+    bad = []
+    cases = 0
+    # which local stands for what: the number of batch dimensions and the (non-negative) task position
+    nb_name = td_name = None
+    for a in ast.walk(fi.node):
+        if isinstance(a, ast.Assign) and isinstance(a.targets[0], ast.Name):
+            if isinstance(a.value, ast.Call) and isinstance(a.value.func, ast.Name) and a.value.func.id == "len" and "batch_shape" in src(a.value):
+                nb_name = a.targets[0].id
+            elif isinstance(a.value, ast.BinOp) and isinstance(a.value.op, ast.Add) and "task_dim" in src(a.value) and nb_name is not None and nb_name in src(a.value):
+                td_name = a.targets[0].id
+    if nb_name is None or td_name is None or not set(names) <= {nb_name, td_name}:
+        raise AnalysisError("C14-16: the permutation is not an expression in the number of batch dimensions and the task position: %s" % names)
+    for nb in range(1, 5):
+        for td in range(0, nb):
+            env = {nb_name: nb, td_name: td}
+            perm = []
+            for a in call.args:
+                v = ev(a.value, env) if isinstance(a, ast.Starred) else ev(a, env)
+                perm += v if isinstance(v, list) else [v]
+            cases += 1
+            # input axes: 0 .. nb-2 batch axes without the task axis, nb-1 the data axis, nb the one-hot axis  (nb + 1 axes)
+            want = list(range(0, td)) + [nb] + list(range(td, nb))
+            if perm != want:
+                bad.append("%d batch dims, task position %d: permutation %s, needed %s" % (nb, td, perm, want))
+    rep.add("C14-16", "%s:IndependentMultitaskVariationalStrategy.__call__[task mask]" % C.module.name, "%s:%d" % (fi.module.relpath, call.lineno), not bad,
+            "the one-hot axis lands at the task position in all %d cases" % cases if not bad else
+            "`%s` does not bring the one-hot axis to the task position: %s - the mask then weights the wrong axis: silently wrong mean / covariance when the sizes coincide, an error otherwise" % (" ".join(src(call).split())[:80], "; ".join(bad[:2])), {})
+    rep.floor("C14-16", "task mask permutations", 1, 1)
+
+
+# ---- C14-17 --------------------------------------------------------------------------------------------------------
+def reshape_of_expanded_rows(idx: ProgramIndex, rep: Report):
+    """GridInterpolationVariationalStrategy._compute_grid may EXPAND the interpolation rows to the batch shape of the variational
+    distribution.  A subclass that reshapes what it gets back with a free `-1` (view(num_dim, num_data, -1)) lets the -1 absorb that
+    expansion: the rows of all components are interleaved into each component."""
+    rep.rule("C14-17", "a subclass of the grid-interpolation strategy does not reshape the (possibly batch-expanded) result of the parent's _compute_grid with a free -1")
+    P = idx.find_class("GridInterpolationVariationalStrategy")
+    pg = idx.method(P, "_compute_grid", own=True)
+    expands = any(isinstance(c.func, ast.Attribute) and c.func.attr in ("expand", "repeat") for c in calls_in(pg.node))
+    n = 0
+    for cls in sorted(idx.subclasses(P, strict=True), key=lambda c: c.qualname):
+        m = cls.methods.get("_compute_grid")
+        if m is None:
+            continue
+        n += 1
+        from_parent = set()
+        for a in ast.walk(m.node):
+            if isinstance(a, ast.Assign) and isinstance(a.value, ast.Call) and isinstance(a.value.func, ast.Attribute) and a.value.func.attr == "_compute_grid" and "super" in src(a.value.func.value):
+                for t in a.targets:
+                    from_parent |= {x.id for x in ast.walk(t) if isinstance(x, ast.Name)}
+        free = [c for c in calls_in(m.node) if isinstance(c.func, ast.Attribute) and c.func.attr in ("view", "reshape") and isinstance(c.func.value, ast.Name) and c.func.value.id in from_parent
+                and any(isinstance(a, ast.UnaryOp) and isinstance(a.op, ast.USub) and isinstance(a.operand, ast.Constant) and a.operand.value == 1 for a in c.args)]
+        ok = not (expands and free)
+        rep.add("C14-17", "%s:%s._compute_grid" % (cls.module.name, cls.qualname), m.where, ok,
+                "the rows are not taken from the parent's (batch-expanding) _compute_grid, or are reshaped with explicit sizes" if ok else
+                "`%s` reshapes the result of the parent's _compute_grid with a free -1, and the parent expands the rows to the variational batch shape: (D*n, 4) becomes (D, D*n, 4) and then (D, n, 4*D): every additive component interpolates with the interleaved rows of all components" % " ".join(src(free[0]).split())[:60], {})
+    rep.floor("C14-17", "subclasses that override _compute_grid", n, 1)
